@@ -17,6 +17,52 @@ var intelSprE4 []byte
 //go:embed intel_cos113.dat
 var intelCos113 []byte
 
+// Intel's recorded (genuinely Intel-signed) TCB Info and QE Identity responses of June 2023 with their issuer-chain headers
+// (own copies of the repository's test data).
+//
+//go:embed intel_tcbinfo_response.json
+var intelTcbInfoResponse []byte
+
+//go:embed intel_qeidentity_response.json
+var intelQeIdentityResponse []byte
+
+//go:embed intel_tcbinfo_issuer_chain.txt
+var intelTcbInfoIssuerChain string
+
+//go:embed intel_qeidentity_issuer_chain.txt
+var intelQeIdentityIssuerChain string
+
+// intelCollateralTime lies inside the validity of both recorded documents.
+var intelCollateralTime = time.Date(2023, 7, 1, 0, 0, 0, 0, time.UTC)
+
+// intelCollateralWorld builds a quote under a PRIVATE PKI that satisfies Intel's recorded collateral (FMSPC 50806f000000, the
+// SVNs of its first, UpToDate level, the TD QE identity), and serves that recorded collateral. Accepted exactly when the pool
+// lists the private root (PCK chain) AND Intel's root (collateral signer).
+func intelCollateralWorld(r *mrand.Rand) *world.World {
+	p := world.RandPlatform(r)
+	p.FMSPC = [6]byte{0x50, 0x80, 0x6f, 0, 0, 0}
+	p.PceID = [2]byte{0, 0}
+	p.Comp = [16]byte{5, 5, 2, 2, 3, 1, 0, 3}
+	p.PceSvn = 11
+	p.TeeTcb = [16]byte{3, 0, 5}
+	p.MrSignerSeam = [48]byte{}
+	p.SeamAttr = [8]byte{}
+	p.QeIsvProdID, p.QeIsvSvn = 2, 8
+	w := world.Honest(r, world.HonestOpts{Shape: world.QuoteShape{AuthLen: 32}, Platform: p})
+	qr := w.Q.QeReport
+	copy(qr[0x10:0x14], []byte{0, 0, 0, 0})
+	copy(qr[0x30:0x40], []byte{0x11, 0, 0, 0, 0, 0, 0, 0, 0, 0, 0, 0, 0, 0, 0, 0})
+	ms, _ := hex.DecodeString("DC9E2A7C6F948F17474E34A7FC43ED030F7C1563F1BABDDF6340C82E0E54A8C5")
+	copy(qr[0x80:0xA0], ms)
+	w.Requote()
+	w.TcbBody, w.TcbHdr = intelTcbInfoResponse, map[string][]string{world.HdrTcbInfo: {intelTcbInfoIssuerChain}}
+	w.QeBody, w.QeHdr = intelQeIdentityResponse, map[string][]string{world.HdrQeID: {intelQeIdentityIssuerChain}}
+	for i := range w.Times {
+		w.Times[i] = intelCollateralTime
+	}
+	return w
+}
+
 // Reference times of the two Intel sample quotes (inside their certificates' windows).
 var (
 	sprE4Time  = time.Date(2023, 7, 1, 0, 0, 0, 0, time.UTC)
@@ -266,6 +312,11 @@ func richHonest(r *mrand.Rand) *world.World {
 			w.Times[i] = hi // exactly at nextUpdate: still valid
 		default:
 			w.Times[i] = lo.Add(time.Duration(r.Int63n(int64(hi.Sub(lo)/time.Second))) * time.Second)
+		}
+	}
+	if r.Intn(5) == 0 { // the usual caller: one instant for all five entries
+		for i := range w.Times {
+			w.Times[i] = w.Times[0]
 		}
 	}
 	if r.Intn(4) == 0 && !w.Times[world.TQeIdentity].Equal(w.Times[world.TTcbInfo]) {
